@@ -95,7 +95,8 @@ PROFILES = {
                 label_plain=True, qname_literal=False),
     "c06": dict(strings=STR_COMMON, locals=[l for l in LOCALS], bare_relations=True, mandatory_args=True),
     "c14": dict(max_bundles=0, p_repeat_id=0.4, p_missing_endpoint=0.15),
-    "c15": dict(strings=[s for s in STR_COMMON], p_repeat_id=0.3, ns_uris=NS_URIS_ASCII),
+    "c15": dict(strings=[s for s in STR_COMMON] + ["<i>x</i>", "a<b", "x>y", "R&D", "\\N", "\\G\\l", "&lt;"], p_repeat_id=0.3,
+                ns_uris=NS_URIS_ASCII, p_label=0.5),
     "c08": dict(p_repeat_id=0.6, max_steps=16),
 }
 
@@ -314,6 +315,8 @@ class Gen:
         extras = []
         if r.random() < self.p["p_extra"] and not bare:
             extras = self.rand_extras(t, kind=kind)
+        if is_elem and r.random() < self.p.get("p_label", 0.0):
+            extras.append([{"form": "str", "s": "prov:label"}, self.rand_value(t, kinds=("str", "str", "lang"))])
         via = r.choice(["new_record", "factory"])
         label = "R%d" % self.nrec
         self.nrec += 1
